@@ -56,8 +56,14 @@ claimed = {
  "C20": ("proof", "DESIGN.md 4 (C20)", "contract-based deductive verification: postconditions over the assumed sort.Slice contract (less closure evaluated symbolically), loop invariants over the assumed bufio contract",
          "sortLogNamesOldToNew: result = the kept entries, ordered by numeric age, any number of files (found and fixed D6); readLines: sent lines == complete records without newline, in order, byte count == bytes of complete records; rotatingFile.read: reset on create/remove/rename, seek to the (possibly reset) offset, advance by whole lines only.",
          "loopWithError (goroutines + fsnotify) is not under contract; file names are assumed canonical (audit.log[.N]); bufio/sort contracts assumed."),
+ "C08": ("other", "DESIGN.md 4 (C08)", "contract-based verification of the error-propagation chain function by function + structural data-flow facts read off the SSA of RunNamedPipe + the C13 blocking obligations",
+         "Proved: IsNamedPipe's result (bit-vector obligation), every pipeline worker only returns non-nil errors, Ingest/Read never return nil and return causes unchanged, all workers run on the errgroup's context derived from the signal context, Wait's error is RunNamedPipe's result, mainWithError returns it, main calls log.Fatalln exactly when it is non-nil; no worker can block uncancellably (C13). Level 'other': these are the necessary per-function conditions; the process-level conclusion (exits within a bounded time, non-zero status) rests on errgroup/signal/OS semantics that are assumed.",
+         "errgroup, os/signal, process exit, bounded time and load are not decided; RunNamedPipe is checked structurally, not symbolically executed."),
+ "C10": ("other", "DESIGN.md 4 (C10)", "contract-based deductive verification of the causal-order half: channel message invariant (written-before-forwarded) checked at every send, tracker invariant Causal, ghost positions writtenat",
+         "Proved for all hand-off orders: a login is only ever forwarded after the successful write of its own event; the tracker only holds written logins and every UserAction it appends comes after the UserLogin whose identity it carries; one Write per event; one shared EventWriter and one logins channel (structural). Level 'other': the 'whole, untorn JSON lines under concurrent writers' half is library/OS behaviour and is not decided by any contract within reach.",
+         "encoding/json + O_APPEND atomicity of a single Write is not decided."),
 }
-na_reason = "not yet built in this revision of the machinery (see DESIGN.md section 7 for the construction order)"
+na_reason = "not claimed"
 props = [json.loads(l) for l in open('/verif/properties.jsonl')]
 hooks = subprocess.run(['git','-C','/repo','log','--format=%H %s'],capture_output=True,text=True).stdout.splitlines()
 hook_commits = [l.split()[0] for l in hooks if l.split(' ',1)[1].startswith('verif:')]
